@@ -360,9 +360,18 @@ def ev_listcomp(eng, node, st, k, ctx):
             raise Unsupported(f"comprehension element not pure: {e}")
         v = lift(v) if v.s == PY else v
         facts = sub_st.pc[n0:]
+        if v.s[0] == "opt":
+            # a list of optionals is used as numbers right away (np.sum / division): None anywhere is a TypeError there
+            s2 = s1.fork()
+            s2.assume(z3.Exists([i], z3.And(i >= 0, i < ln, v.t[0])))
+            if eng.feasible(s2):
+                eng.throw(s2, "TypeError", node, ctx)
+            s1.assume(z3.ForAll([i], z3.Implies(z3.And(i >= 0, i < ln), z3.Not(v.t[0]))))
+            eng.assumption_log.add("a comprehension of optional numbers raises TypeError at construction if an element is None (in the code it is raised by the arithmetic that follows)")
+            v = V(v.s[1], v.t[1])
         es = v.s
-        new = fresh("lc", z3.ArraySort(z3.IntSort(), z3.RealSort() if es == REAL else (z3.StringSort() if es == STR else z3.IntSort())))
-        body = z3.Select(new, i) == v.t
-        s1.assume(z3.ForAll([i], z3.Implies(z3.And([i >= 0, i < ln] + facts), body)))
+        for fct in facts:
+            s1.assume(z3.ForAll([i], fct))
+        new = z3.Lambda([i], v.t)
         return k(s1, eng.new_list(s1, es, ln, new))
     return eng.ev(gen.iter, st, on_iter, ctx)
